@@ -472,9 +472,10 @@ func (ex *Exec) cond(v ssa.Value, st execState) int {
 			}
 			return -1
 		}
-		// Membership ==/!= const
-		if k, ok := IntConst(x.Y); ok {
-			if m, ok := ex.memOf(x.X, st); ok && m >= 0 {
+		// Membership ==/!= const (either operand order)
+		_, cx, cy, _ := BinCmp(x)
+		if k, ok := IntConst(cy); ok {
+			if m, ok := ex.memOf(cx, st); ok && m >= 0 {
 				eq := m == ex.RI.abs(k)
 				if eq == (x.Op == token.EQL) {
 					return 1
